@@ -21,8 +21,12 @@ from ..errors import TokenError
 class Function(Token):
     _re = regex.compile(r'^\s*@?(?P<name>[A-Z_][\w\.]*)\(\s*', regex.IGNORECASE)
 
-    def ast(self, tokens, stack, builder, check_n=lambda *args: True):
-        if tokens and tokens[-1].name == '%':
+    def ast(self, tokens, stack, builder, check_n=lambda *args: True,
+            check_adjacent=True):
+        from .operand import Operand
+        if check_adjacent and tokens and (
+                isinstance(tokens[-1], Operand) or
+                tokens[-1].name in ('%', ')')):
             raise TokenError
         super(Function, self).ast(tokens, stack, builder)
         stack.append(self)
@@ -48,9 +52,9 @@ class Array(Function):
 
     def ast(self, tokens, stack, builder, check_n=lambda t: t.n_args):
         if self.has_start:
-            Function('ARRAY(').ast(tokens, stack, builder, check_n=check_n)
+            Function('ARRAY(').ast(tokens, stack, builder, check_n, False)
             stack[-1].attr['array'] = True
-            Function('ARRAY(').ast(tokens, stack, builder, check_n=check_n)
+            Function('ARRAY(').ast(tokens, stack, builder, check_n, False)
             stack[-1].attr['array'] = True
         else:
             token = Parenthesis(')')
@@ -58,7 +62,7 @@ class Array(Function):
             token.ast(tokens, stack, builder)
             if self.has_sep:
                 check_n = functools.partial(_check_tkn_n_args, token.get_n_args)
-                Function('ARRAY(').ast(tokens, stack, builder, check_n=check_n)
+                Function('ARRAY(').ast(tokens, stack, builder, check_n, False)
                 stack[-1].attr['array'] = True
             else:
                 token = Parenthesis(')')
